@@ -40,10 +40,14 @@ func alphabet() []treefs.Op {
 	w("x/y", "N3")
 	w("d/e/h", "N4")
 	a = append(a, treefs.Op{Kind: "Writer", P: "f", Chunks: []string{"W", "1"}}, treefs.Op{Kind: "Writer", P: "d/g", Chunks: []string{"W2"}})
-	for _, p := range []string{"d", "e", "d/e", "x"} {
+	// (f: a path that is a FILE on one of the remotes - after its removal it can come back as a directory)
+	for _, p := range []string{"d", "e", "d/e", "x", "f"} {
 		a = append(a, treefs.Op{Kind: "MkdirAll", P: p})
 	}
-	for _, p := range []string{"f", "d/f", "d/g", "e", "d", "d/e"} {
+	w("f/sub", "N8")
+	// (d/e/h and x/y: removing the only file leaves an EMPTY directory that nothing journals - below a
+	// directory the remote already has, resp. at the top)
+	for _, p := range []string{"f", "d/f", "d/g", "e", "d", "d/e", "d/e/h", "x/y"} {
 		a = append(a, treefs.Op{Kind: "Remove", P: p})
 	}
 	for _, p := range []string{"d", "e", "f", "d/e", "x"} {
@@ -159,7 +163,7 @@ type runOut struct {
 	commitErr   string
 }
 
-var readPool = []string{"d2", "d2/f", "f", "d", "d/f", "d/g", "d/h", "d/k", "e", "d/e", "d/e/f", "d/e/h", "x", "x/y", "x2", "y", "y/f", "z", "e2", "."}
+var readPool = []string{"d2", "d2/f", "f/sub", "f", "d", "d/f", "d/g", "d/h", "d/k", "e", "d/e", "d/e/f", "d/e/h", "x", "x/y", "x2", "y", "y/f", "z", "e2", "."}
 
 // execute runs one case with both oracles.
 func execute(cs Case, wantC06, wantC07 bool) runOut {
@@ -248,7 +252,12 @@ func execute(cs Case, wantC06, wantC07 bool) runOut {
 				if !dirty {
 					continue
 				}
-				add("C06", "commit-failed/"+lastKind(cs.History), "a Commit without remote failures succeeds", fmt.Sprintf("Commit returned %v", cerr))
+				kind := "commit-failed/" + lastKind(cs.History)
+				if roots := remoteFileAsDir(absOps(cs.History), func(q string) bool { return len(everRemote[q]) > 0 }); len(roots) > 0 {
+					// the remote (rightly) refuses what the cache accepted without consulting it
+					kind = "commit-failed/remote-file-used-as-directory"
+				}
+				add("C06", kind, "a Commit without remote failures succeeds", fmt.Sprintf("Commit returned %v", cerr))
 				return out
 			}
 			rm = ov.Clone()
@@ -475,13 +484,103 @@ func absOps(hist []treefs.Op) []treefs.Op {
 	return out
 }
 
+// remoteFileAsDir returns the paths that some operation of the history used as a DIRECTORY although
+// the remote holds (or held) a FILE there that was not removed through the cache before: the cache
+// accepts such operations without consulting the remote (recorded design gap).
+func remoteFileAsDir(hist []treefs.Op, wasRemoteFile func(path string) bool) []string {
+	var roots []string
+	removed := map[string]bool{}
+	for _, o := range hist {
+		switch o.Kind {
+		case "Remove", "RemoveAll":
+			removed[o.P] = true
+			continue
+		case "Commit":
+			continue
+		}
+		dest, self := o.P, o.Kind == "MkdirAll"
+		switch o.Kind {
+		case "CopyFile", "CopyDirectory", "Copy":
+			dest = o.Q
+			self = o.Kind == "CopyDirectory"
+			// a copy OF such a path carries the conflict to its destination
+			for _, q := range roots {
+				if o.P == q || strings.HasPrefix(o.P, q+"/") || strings.HasPrefix(q, o.P+"/") {
+					roots = append(roots, o.Q)
+					break
+				}
+			}
+		case "WriteFile", "Writer", "MkdirAll":
+		default:
+			continue
+		}
+		segs := strings.Split(dest, "/")
+		n := len(segs) - 1
+		if self {
+			n = len(segs)
+		}
+		for i := 1; i <= n; i++ {
+			q := strings.Join(segs[:i], "/")
+			if wasRemoteFile(q) && !removed[q] {
+				roots = append(roots, q)
+			}
+		}
+	}
+	return roots
+}
+
 func rootCause(hist []treefs.Op, ov, rm, r0 *treefs.Node, segs []string, state string, m *fsx.Mismatch, r fsx.Result, e treefs.Expect) string {
 	hist = absOps(hist)
 	p := strings.Join(segs, "/")
 	under := func(a, b string) bool { return b == "" || b == "." || a == b || strings.HasPrefix(a, b+"/") }
+	isFile := func(t *treefs.Node, q string) bool {
+		s, _ := treefs.Norm(q)
+		n := t.Lookup(s)
+		return n != nil && !n.Dir
+	}
+	for _, q := range remoteFileAsDir(hist, func(q string) bool { return isFile(r0, q) || isFile(rm, q) }) {
+		if under(p, q) {
+			return "remote-file-used-as-directory"
+		}
+	}
 	shown := m.Kind == "answered-true" || m.Kind == "succeeded-on-invisible-node"
 	if shown && (state == "removed-remote-file" || state == "removed-remote-dir") {
 		return "removed-remote-node-still-visible/" + strings.TrimPrefix(state, "removed-remote-")
+	}
+	// the same gap after a type change: a remote node removed through the cache and re-created with
+	// the other kind - the remote's old node still shines through (queries, reads, listing entry)
+	removedThenRetyped := func(q string) (string, bool) {
+		s, _ := treefs.Norm(q)
+		o, rr := ov.Lookup(s), rm.Lookup(s)
+		if o == nil || rr == nil || o.Dir == rr.Dir {
+			return "", false
+		}
+		for _, h := range hist {
+			if (h.Kind == "Remove" || h.Kind == "RemoveAll") && under(q, h.P) {
+				if rr.Dir {
+					return "dir", true
+				}
+				return "file", true
+			}
+		}
+		return "", false
+	}
+	if kind, ok := removedThenRetyped(p); ok && p != "" && (m.Kind == "answered-true" || m.Kind == "answered-false") {
+		// (existence / kind queries only: data reads of such a path do fail as they should)
+		return "removed-remote-node-still-visible/" + kind
+	}
+	if strings.HasPrefix(m.Kind, "lists-") || strings.HasPrefix(m.Kind, "misses-") || m.Kind == "wrong-listing" {
+		if n := ov.Lookup(segs); n != nil && n.Dir {
+			for name := range n.Kids {
+				child := name
+				if p != "" {
+					child = p + "/" + name
+				}
+				if _, ok := removedThenRetyped(child); ok {
+					return "removed-remote-node-still-listed"
+				}
+			}
+		}
 	}
 	// listing differences: which children are extra / missing
 	var extra, missing []string
@@ -767,6 +866,11 @@ func classifyDiff(want, got map[string]string, hist []treefs.Op, r0 map[string]s
 		// the directory was on the remote (initially or through an earlier Commit) when it was removed
 		return "remove-of-remote-directory-not-committed", why
 	}
+	for _, q := range remoteFileAsDir(hist, func(q string) bool { return len(everRemote[q]) > 0 }) {
+		if under(p, q) {
+			return "remote-file-used-as-directory", why
+		}
+	}
 	removed := map[string]bool{}
 	// staleOf maps a path to the remote path whose (removed, but still readable) bytes a wrongly
 	// accepted copy would have put there: removed paths map to themselves, destinations of such
@@ -932,8 +1036,8 @@ func run(prop string) func(c *fw.Ctx) {
 				if disk {
 					d = depth - 1
 				}
-				if c07 && depth == 4 && !disk && ri != 1 && ri != 2 {
-					d = 3 // C07 thorough: the read sweeps make depth 4 affordable on two of the four remotes only
+				if c07 && depth == 4 && !disk && ri != 2 {
+					d = 3 // C07 thorough: the read sweeps make depth 4 affordable on the richest remote only
 				}
 				stop := false
 				histories(alpha, d, func(h []treefs.Op) {
